@@ -282,7 +282,7 @@ pub fn main(args: Args) -> i32 {
         }
     }
     let g2 = gen::Gen::new(gen::Opts { depth: 2, max_programs: u64::MAX, multi_template: false, loop_controls: true });
-    let stride2 = args.tier.pick(61u64, 3u64);
+    let stride2 = args.tier.pick(61u64, 1u64);
     let mut n = 0;
     while n < g2.size() {
         subjects.push(Subject { name: format!("d2#{}:single", n), templates: vec![("main".into(), g2.program(n).source())], main: "main".into(), block: None });
